@@ -34,10 +34,9 @@ package index
 
 //@ func localizeBucketPos(pos, maxFileSize) (localPos types.Position, fileNum uint32)  property C07
 //@   requires maxFileSize > 0
-//@   requires pos == 0 || pos >= 4
 //@   ensures @empty pos == 0 ==> localPos == 0 && fileNum == 0
-//@   ensures @file pos != 0 ==> fileNum == wrapu32((pos - 4) / maxFileSize)
-//@   ensures @local pos != 0 ==> localPos == wrapu64(pos - fileNum*maxFileSize)
+//@   ensures @file pos >= 4 ==> fileNum == wrapu32((pos - 4) / maxFileSize)
+//@   ensures @local pos >= 4 ==> localPos == wrapu64(pos - fileNum*maxFileSize)
 
 // ---------------------------------------------------------------------------
 // Layer A: abstract contract of the index over ghost state (DESIGN.md §3).
@@ -461,9 +460,51 @@ package index
 //@   trusted the header file is rewritten in place by os.WriteFile (finding F11: not atomic; see DESIGN.md)
 //@   pure
 
-//@ func (index *Index) reapIndexRecords(ctx context.Context, fileNum uint32, indexPath string) (stale bool, err error)
-//@   trusted T5 contract pending: marks/merges/truncates free records of one non-current index file (see DESIGN.md 10)
-//@   modifies ctx.$done
+// busy: a record is in use exactly when its bucket points at it (the bucket holds the position
+// of the record's payload, i.e. local position and file number both match).
+//@ func (index *Index) busy(bucketPrefix BucketIndex, localPos int64, fileNum uint32) (inUse bool, err error)  property C04
+//@   preserves index
+//@   ensures @out-of-range err != nil <==> bucketPrefix >= len(index.buckets)
+//@   ensures @not-pointed-to err == nil && !inUse && 4 <= localPos && localPos < index.maxFileSize + 4 ==> index.buckets[bucketPrefix] != ibpos(fileNum, index.maxFileSize, localPos)
+//@   ensures err != nil ==> !inUse
+
+// reapIndexRecords (C02, C04, C07, C11): the scan follows the record chain of one index file.
+// gB (ghost) is the set of record boundaries found so far; the cursor only moves from a
+// boundary over one size prefix and the payload size read there. Size prefixes are only
+// written at a known boundary and with a size that ends the (merged) free span exactly at the
+// end of the record under the cursor, so the chain of records stays intact; only a record that
+// its bucket does not point to is marked free; the file is only truncated at the start of a
+// free span that reaches the end of the scanned file.
+//@ func (index *Index) reapIndexRecords(ctx context.Context, fileNum uint32, indexPath string) (stale bool, err error)  property C02 C04 C07 C11
+//@   preserves index
+//@   modifies ctx.$done, fp(IO)
+//@   ghost var gB (Array Int Bool) = nopos()[0 := true]
+//@   ghost var gpos int = 0
+//@   ghost var gsz int = 0
+//@   ghost var gbusy bool = true
+//@   ghost var gprefix int = 0
+//@   ghost var gtrunc int = 0 - 1
+//@   ghost at loop 0 head: gpos = pos
+//@   ghost at after call (encoding/binary.littleEndian).Uint32#0: gsz = $r0 % 2147483648
+//@   ghost at after call index.Index.busy#0: gbusy = ($r0 || $r1 != nil)
+//@   ghost at after call index.Index.busy#0: gprefix = $a1
+//@   ghost at loop 0 latch: gB = gB[pos := true]
+//@   ghost at after call (*os.File).Truncate#0: gtrunc = ite($r0 == nil, $a1, gtrunc)
+// input invariant: every record of an index file carries at least the 4-byte bucket prefix (written by
+// flushBucket) and is smaller than 2^30 bytes (the code's own documented assumption, gc.go "will always be less than 2^30")
+//@   assume at after call (encoding/binary.littleEndian).Uint32#0: @format-index-record-size $r0 % 2147483648 >= 4 && $r0 % 2147483648 < 1073741824
+//@   assert at loop 0 latch: @cursor-follows-format pos == gpos + 4 + gsz
+//@   assert at before call (*os.File).ReadAt#0: @read-at-boundary $a2 == pos && gB[pos] && len($a1) == 4
+//@   assert at before call (*os.File).ReadAt#1: @read-payload $a2 == pos + 4 && len($a1) == gsz
+//@   assert at before call index.Index.busy#0: @busy-args $a1 == le32(bytes(data), 0) && $a2 == pos + 4 && $a3 == fileNum
+//@   assert at before call (*os.File).WriteAt#0: @merge-keeps-chain gB[$a2] && $a2 + 4 + freeAtSize == gpos + 4 + gsz && len($a1) == 4 && le32(bytes($a1), 0) == freeAtSize + 2147483648 && freeAtSize < 2147483648
+//@   assert at before call (*os.File).WriteAt#1: @mark-only-unreferenced !gbusy && gprefix < len(index.buckets) && (gpos < index.maxFileSize ==> index.buckets[gprefix] != ibpos(fileNum, index.maxFileSize, gpos + 4))
+//@   assert at before call (*os.File).WriteAt#1: @mark-keeps-chain gB[$a2] && $a2 + 4 + freeAtSize == gpos + 4 + gsz && len($a1) == 4 && le32(bytes($a1), 0) == freeAtSize + 2147483648 && freeAtSize < 2147483648
+//@   assert at before call (*os.File).Truncate#0: @truncate-free-tail gB[$a1] && $a1 > busyAt && $a1 + 4 + freeAtSize == pos
+//@   ensures @stale-means-empty stale ==> err == nil && (gtrunc == 0 || event("call:(*os.File).ReadAt") == 0)
+//@   loop 0 invariant @cursor pos >= 0 && pos <= file.$size + 2147483648 && file.$size < (1 << 62) && gB[pos] && file != nil && len(sizeBuf) == 4 && fresh(sizeBuf) && (baseof(scratch) == 0 || fresh(scratch))
+//@   loop 0 invariant @spans 0 - 1 <= busyAt && busyAt < pos && 0 - 1 <= freeAt && freeAt < pos && freeAtSize < 2147483648 && (pos == 0 ==> freeAt == 0 - 1 && busyAt == 0 - 1)
+//@   loop 0 invariant @free-span freeAt > busyAt ==> gB[freeAt] && freeAt + 4 + freeAtSize == pos
 
 // Index.gc: only non-current files are reaped; a file is unlinked only when it is the first
 // file, only after the header on disk was advanced past it (D5), and only if it is stale.
